@@ -331,6 +331,87 @@ pub fn run(tier: &str, seed: u64, replay: Option<String>) -> i32 {
             n_variants += 1;
         }
     }
+    // pairs (a link moved to a sibling element, a schedule array edited): the sums over spaces,
+    // loads and schedules meet combinations no shipped model has (two occupied spaces with
+    // different profiles, one of them with a shortened calendar, ...)
+    let mut n_pairs = 0usize;
+    for b in &bases {
+        let v = crate::engines::model::base_value(b);
+        let mut moves: Vec<MEdit> = vec![];
+        for (i, _) in crate::closure::collection(&v, &["spaces"]).iter().enumerate().take(4) {
+            for l in ["loads", "thermostat"] {
+                moves.push(MEdit::IdRedirected { ptr: format!("/spaces/{}/{}", i, l), to: "sibling".into() });
+            }
+        }
+        for (i, _) in crate::closure::collection(&v, &["loads"]).iter().enumerate().take(4) {
+            for l in ["people_schedule", "equipment_schedule", "lighting_schedule"] {
+                moves.push(MEdit::IdRedirected { ptr: format!("/loads/{}/{}", i, l), to: "sibling".into() });
+            }
+        }
+        // schedules the loads and thermostats actually reach (yearly -> weekly -> daily)
+        let mut used: std::collections::BTreeSet<String> = Default::default();
+        for l in crate::closure::collection(&v, &["loads"]).iter().chain(crate::closure::collection(&v, &["thermostats"]).iter()) {
+            for k in ["people_schedule", "equipment_schedule", "lighting_schedule", "temp_max", "temp_min"] {
+                if let Some(id) = l.get(k).and_then(|x| x.as_str()) {
+                    used.insert(id.to_string());
+                }
+            }
+        }
+        for coll in ["year", "week"] {
+            for sc in crate::closure::collection(&v, &["schedules", coll]) {
+                if sc.get("id").and_then(|x| x.as_str()).map(|i| used.contains(i)).unwrap_or(false) {
+                    for p in sc.get("values").and_then(|x| x.as_array()).cloned().unwrap_or_default() {
+                        if let Some(id) = p.get(0).and_then(|x| x.as_str()) {
+                            used.insert(id.to_string());
+                        }
+                    }
+                }
+            }
+        }
+        let mut sched_edits: Vec<MEdit> = vec![];
+        let mut n_year_edits = 0usize;
+        for coll in ["year", "week", "day"] {
+            for (i, sc) in crate::closure::collection(&v, &["schedules", coll]).iter().enumerate() {
+                if !sc.get("id").and_then(|x| x.as_str()).map(|i| used.contains(i)).unwrap_or(false) {
+                    continue;
+                }
+                let ptr = format!("/schedules/{}/{}/values", coll, i);
+                sched_edits.push(MEdit::ArrayEmptied { ptr: ptr.clone() });
+                sched_edits.push(MEdit::ArrayTruncated { ptr: ptr.clone() });
+                if coll == "year" {
+                    n_year_edits = sched_edits.len();
+                }
+                sched_edits.push(MEdit::ArrayDuplicated { ptr });
+            }
+        }
+        if moves.is_empty() || sched_edits.is_empty() {
+            continue;
+        }
+        // the moves alone (closed models), then move x schedule edit
+        for mv in &moves {
+            let mut st = json!({"base": b, "edits": [mv], "what": "pair", "require_all": false});
+            if !b.starts_with("min:") {
+                st["probe_base"] = json!(b);
+            }
+            steps.push(st);
+            n_pairs += 1;
+        }
+        // every move x every edit of a used yearly calendar; a seeded sample of the rest
+        let all: Vec<(usize, usize)> = (0..moves.len()).flat_map(|a| (0..sched_edits.len()).map(move |c| (a, c))).collect();
+        let (first, rest): (Vec<usize>, Vec<usize>) = (0..all.len()).partition(|k| all[*k].1 < n_year_edits);
+        let mut rest = rest;
+        rng.shuffle(&mut rest);
+        let take_rest = if thorough { rest.len() } else { rest.len().min(100) };
+        for k in first.into_iter().chain(rest.into_iter().take(take_rest)) {
+            let (a, c) = all[k];
+            let mut st = json!({"base": b, "edits": [moves[a], sched_edits[c]], "what": "pair", "require_all": true});
+            if !b.starts_with("min:") {
+                st["probe_base"] = json!(b);
+            }
+            steps.push(st);
+            n_pairs += 1;
+        }
+    }
     // ---- 2..3 simultaneous edits
     let n_multi = if thorough { 8000 } else { 400 };
     for _ in 0..n_multi {
@@ -597,6 +678,7 @@ pub fn run(tier: &str, seed: u64, replay: Option<String>) -> i32 {
     extra.insert("single_edit_cells".into(), json!(n_cells));
     extra.insert("single_edits_exhaustive".into(), json!(thorough));
     extra.insert("sane_variant_steps".into(), json!(n_variants));
+    extra.insert("sibling_move_x_schedule_edit_steps".into(), json!(n_pairs));
     extra.insert("step_classes".into(), json!(classes));
     extra.insert("fault_kinds_fired".into(), json!(fired));
     extra.insert("recomputes_inside_sanity_predicate".into(), json!(sane_n));
